@@ -553,6 +553,10 @@ impl Obs {
             ));
         }
         plans.push(("ciphertext_list_one_too_long".into(), Tamper { extra_ciphertext_at: Some(pos), ..Default::default() }, false));
+        // a consistent commit whose path stops early: nobody may accept it, wherever it sits relative to the cut
+        for k in 1..n {
+            plans.push((format!("consistent_short_update_path:position {k}"), Tamper { truncate_to: Some(k), ..Default::default() }, true));
+        }
         plans.push(("consistent_commit_wrong_confirmation_tag".into(), Tamper { wrong_confirmation_tag: true, ..Default::default() }, true));
         for (name, tamper, must) in plans {
             let Some(f) = forge(&input, &tamper) else { continue };
